@@ -49,7 +49,18 @@ def core_atom(it, tt: VTT, k: P) -> VTensor:
         sizes = [rl, mode_atom(it, "N", tt.name, k), rr]
         tags = ["bond", "mode", "bond"]
     tags = [f"{t}:{tt.name}" for t in tags]
-    return VTensor(net.atom_tensor(sp, nm, sizes, tags=tags), "dtype:" + tt.name)
+    dn = net.atom_tensor(sp, nm, sizes, tags=tags)
+    # a mode whose symbolic size is 1 on this path because a guard established it (`if other.N[k] == 1:`): remembered on the wire, so that a
+    # deliberate broadcast of exactly that axis is recognised as tested
+    for ax, which in ((1, "M"), (2, "N")) if tt.is_ttm else ((1, "N"),):
+        rep = it.facts.seq_rep(f"{which}_{tt.name}")
+        raw = P.atom(f"{rep}[{it.facts.norm(k)!r}]")
+        if it.facts.norm(raw) == ONE and raw != ONE:
+            if not hasattr(sp, "tested"):
+                sp.tested = set()
+            for w in dn.terms[0].out[ax]:
+                sp.tested.add(w)
+    return VTensor(dn, "dtype:" + tt.name)
 
 
 def make_tt(it, name: str, is_ttm: bool, d=None) -> VTT:
@@ -179,6 +190,14 @@ def attribute(it, base, name, fr, node):
 def subscript(it, base, idx, fr, node):
     if getattr(it, "lenient", False) and isinstance(base, VOpaque):
         return VOpaque("untyped-element")
+    if isinstance(base, VConstDict):
+        ok, key = it.literal_key(idx)
+        if not ok:
+            raise Unmodelled("table lookup with a key that is not a literal")
+        hit = next((v for k, v in base.items if type(k) is type(key) and k == key), None)
+        if hit is None:
+            raise Raised("KeyError", repr(key))
+        return hit
     if isinstance(base, VSeq):
         if isinstance(idx, VInt):
             p = it.facts.norm(idx.p)
@@ -465,6 +484,17 @@ def call(it, e: ast.Call, fr):
     return function(it, f.dotted, args, kwargs, fr, e)
 
 
+def call_value(it, f, args, kwargs, fr, node):
+    """call a function *value* (a closure, a repository function, a library function) with evaluated arguments"""
+    if isinstance(f, VClosure):
+        return it.call_function(f.func, args, kwargs, closure_env=f.env)
+    if isinstance(f, VFunc):
+        return function(it, f.dotted, args, kwargs, fr, node)
+    if isinstance(f, VBound):
+        return method(it, f.recv, f.name, args, kwargs, fr, node)
+    raise Unmodelled(f"call of {type(f).__name__}")
+
+
 def _as_intarr(it, v):
     if isinstance(v, VIntArr):
         return v
@@ -482,6 +512,20 @@ def _as_intarr(it, v):
 def method(it, base, name, args, kwargs, fr, node):
     if isinstance(base, VOpaque) and base.tag == "logger":
         return VNone()       # logging calls carry no value
+    if isinstance(base, VConstDict):
+        if name == "get" and 1 <= len(args) <= 2:
+            ok, key = it.literal_key(args[0])
+            if not ok:
+                raise Unmodelled("table lookup with a key that is not a literal")
+            hit = next((v for k, v in base.items if type(k) is type(key) and k == key), None)
+            return hit if hit is not None else (args[1] if len(args) == 2 else VNone())
+        if name == "keys":
+            return VList([it.const(k) for k, _ in base.items])
+        if name == "values":
+            return VList([v for _, v in base.items])
+        if name == "items":
+            return VList([VTuple((it.const(k), v)) for k, v in base.items])
+        raise Unmodelled(f"method {name} of a table")
     if isinstance(base, (VIntArr, VIndexSeq)) and name in ("reshape", "transpose", "flatten", "ravel", "tolist"):
         arr = _as_intarr(it, base)
         if arr is not None:
@@ -851,6 +895,34 @@ def function(it, dotted, args, kwargs, fr, node):
         return torch_function(it, dotted, last, args, kwargs, node)
     if top == "sys":
         return VOpaque(dotted)
+    if dotted in ("itertools.chain", "itertools.chain.from_iterable") and not kwargs:
+        parts = args if dotted == "itertools.chain" else (it.iter_concrete(args[0]) if len(args) == 1 else None)
+        if parts is None:
+            raise Unmodelled("itertools.chain.from_iterable arguments")
+        if all(isinstance(p_, VSymList) for p_ in parts) and len(parts) == 1:
+            return parts[0]
+        out = []
+        for p_ in parts:
+            out += it.iter_concrete(p_)
+        return VList(out)
+    if dotted == "itertools.pairwise" and len(args) == 1 and not kwargs:
+        items = it.iter_concrete(args[0])
+        return VList([VTuple((a, b)) for a, b in zip(items, items[1:])])
+    if dotted == "functools.reduce" and len(args) in (2, 3) and not kwargs:
+        items = it.iter_concrete(args[1])
+        fn = args[0]
+        if len(args) == 3:
+            acc = args[2]
+        elif items:
+            acc, items = items[0], items[1:]
+        else:
+            raise Raised("TypeError", "reduce() of empty iterable with no initial value")
+        for x in items:
+            acc = call_value(it, fn, [acc, x], {}, fr, node)
+        return acc
+    if dotted.startswith("operator.") and last in ("mul", "add", "sub", "matmul", "truediv", "floordiv") and len(args) == 2 and not kwargs:
+        opn = {"mul": ast.Mult, "add": ast.Add, "sub": ast.Sub, "matmul": ast.MatMult, "truediv": ast.Div, "floordiv": ast.FloorDiv}[last]()
+        return it.binop(opn, args[0], args[1], fr, node)
     if dotted == "math.prod" and len(args) == 1 and not kwargs:
         out = ONE
         for x in it.iter_concrete(args[0]):
